@@ -71,12 +71,28 @@ type decResult struct {
 	claims jwt.Claims
 }
 
+// warmTok: a valid version-2 token that is decoded successfully right before every judged decode. A decoder's
+// verdict on a token must not depend on what the process decoded before (memoised verifications, pooled or cached
+// headers, ...): with the warm-up such state is always freshly populated by a token that passes every gate.
+var warmTok string
+
+func warmUp() {
+	defer func() { recover() }()
+	if warmTok == "" {
+		u := jwt.NewUserClaims(pubOf(kpN('U', 9)))
+		u.Name = "warm-up"
+		warmTok, _ = u.Encode(kpN('A', 9))
+	}
+	jwt.Decode(warmTok)
+}
+
 func safeDecode(name string, f func() (jwt.Claims, error)) (res decResult) {
 	defer func() {
 		if r := recover(); r != nil {
 			res = decResult{out: fmt.Sprintf("panic:%v", r)}
 		}
 	}()
+	warmUp()
 	c, err := f()
 	if err != nil || c == nil || reflect.ValueOf(c).IsNil() {
 		return decResult{out: "err"}
